@@ -24,6 +24,8 @@ void *hxs_wal_mtx(struct iwkv *kv);
 int hxs_wal_stage(struct iwkv *kv);
 void hxs_wal_set_stage(struct iwkv *kv, int st);
 void hxs_wal_obs(struct iwkv *kv, char *out, size_t outsz);
+int hxs_wal_forcecp(struct iwkv *kv);
+int hxs_exf_fd(IWFS_EXT *f);
 
 int __real_pthread_rwlock_rdlock(pthread_rwlock_t*);
 int __real_pthread_rwlock_wrlock(pthread_rwlock_t*);
@@ -324,6 +326,22 @@ iwrc __wrap_iwp_current_time_ms(uint64_t *time, bool monotonic) {
   return rc;
 }
 
+// main_stable on the real code: nothing may write to the main file while the backup copies it (stage 3)
+ssize_t __real_pwrite64(int fd, const void *buf, size_t n, off_t off);
+ssize_t __real_write(int fd, const void *buf, size_t n);
+int __real_ftruncate64(int fd, off_t len);
+int __real_msync(void *addr, size_t len, int flags);
+static atomic_int g_mainwrites;
+static void main_touch(const char *fn, int fd) {
+  if (!g_kv || !g_kv->dlsnr || hxs_wal_stage(g_kv) != 3) return;
+  if (fd >= 0 && fd != hxs_exf_fd(hxs_fsm_pool(&g_kv->fsm))) return;
+  if (atomic_fetch_add(&g_mainwrites, 1) < 3) printf("mainwrite %s stage=3\n", fn);
+}
+ssize_t __wrap_pwrite64(int fd, const void *buf, size_t n, off_t off) { main_touch("pwrite", fd); return __real_pwrite64(fd, buf, n, off); }
+ssize_t __wrap_write(int fd, const void *buf, size_t n) { if (fd > 2) main_touch("write", fd); return __real_write(fd, buf, n); }
+int __wrap_ftruncate64(int fd, off_t len) { main_touch("ftruncate", fd); return __real_ftruncate64(fd, len); }
+int __wrap_msync(void *addr, size_t len, int flags) { main_touch("msync", -1); return __real_msync(addr, len, flags); }
+
 // ---------------------------------------------------------------- op interpreter
 static IWDB find_db(Thr *t, const char *name) {
   if (name[0] == 'p') { int s = atoi(name + 1); return s >= 0 && s < NPRIV ? t->priv[s] : 0; }
@@ -447,6 +465,13 @@ static void exec_op(Thr *t, int idx) {
     t->in_bkp = 1; t->last_stage = -1;
     rc = iwkv_online_backup(g_kv, &ts, p);
     t->in_bkp = 0;
+    if (g_sched && !rc) {
+      // the backup ends by asking the checkpoint thread for a checkpoint: let it happen before the next
+      // scheduled step, so that the schedule stays deterministic
+      for (int i = 0; i < 2500 && hxs_wal_forcecp(g_kv); ++i) usleep(2000);
+      void *g = hxs_wal_mtx(g_kv);
+      if (g) { __real_pthread_mutex_lock(g); __real_pthread_mutex_unlock(g); }
+    }
     sb_puts(&out, rcname(rc, eb));
   } else if (!strcmp(k0, "sleep") && n >= 2) {
     usleep(atoi(w[1])); sb_puts(&out, "ok");
@@ -562,7 +587,7 @@ static void close_case(void) {
     memset(t, 0, sizeof *t);
   }
   for (int i = 0; i < 8; ++i) { free(g_snap[i]); g_snap[i] = 0; free(g_bg[i].ev.s); memset(&g_bg[i], 0, sizeof g_bg[i]); }
-  atomic_store(&g_nsnap, 0); atomic_store(&g_nbg, 0);
+  atomic_store(&g_nsnap, 0); atomic_store(&g_nbg, 0); atomic_store(&g_mainwrites, 0);
 }
 
 static void print_bg(void) {
